@@ -59,8 +59,10 @@ Definition fail_code (f : fail) : N :=
   | FDupChain | FNoF | FRoots | FDest | FSendSigs => 7
   end%N.
 
-Definition mk_sched (order1 a1 a2 rootord b1 b2 : list node) (fails : list bool) : sched :=
-  mkSched order1 a1 a2 rootord b1 b2 (fun k => N.of_nat (S k)) (fun k => nth k fails false).
+(* request ids are interned by the harness as 1 + the index of the Send call in the controller's lifetime: [off] is
+   the number of Send calls made by EARLIER calls on the same controller (0 for a controller built for one call) *)
+Definition mk_sched (off : nat) (order1 a1 a2 rootord b1 b2 : list node) (fails : list bool) : sched :=
+  mkSched order1 a1 a2 rootord b1 b2 (fun k => N.of_nat (S (off + k))) (fun k => nth k fails false).
 
 Section Run.
   Variable cfg : config.
@@ -134,17 +136,18 @@ Fixpoint item_roots (its : list item) : list root :=
   | _ :: r => item_roots r
   end.
 
-Definition c06_model (i : c06_in) : c06_out :=
+Definition c06_model_from (off : nat) (i : c06_in) : c06_out :=
   let roots := dedupN (item_roots (i_items i)) in
   let rootords := if memN 0%N roots then [[0%N]; filter (fun r => negb (N.eqb r 0)) roots] else [[]] in
   flat_map (fun order1 =>
     flat_map (fun ro =>
-      let sc := mk_sched order1 (i_asked i) (i_sendA2 i) ro (i_shufB1 i) (i_shufB2 i) (i_fails i) in
+      let sc := mk_sched off order1 (i_asked i) (i_sendA2 i) ro (i_shufB1 i) (i_shufB2 i) (i_fails i) in
       let g0 := ginit (i_cfg i) sc in
       map (fun ga => out_of (fst ga) (snd ga))
           (eager_acc (i_cfg i) sc g0 [] (i_items i)))
       rootords)
     (rotations (i_asked i)).
+Definition c06_model := c06_model_from 0.
 
 Definition vote_pair_eqb (p q : chain * root) : bool := N.eqb (fst p) (fst q) && N.eqb (snd p) (snd q).
 Definition send_eqb (a b : send_t) : bool :=
@@ -219,6 +222,9 @@ Definition attr_ok (cfg : config) (attr : list (node * list (chain * root))) : b
   | [] => true
   | _ =>
       nodupb N.eqb (map fst attr) &&
+      (* every observation that is counted comes from a node that is a configured observer of that chain in THIS
+         configuration *)
+      forallb (fun a => forallb (fun v => memN (fst a) (rmn_nodes_of cfg (fst v))) (snd a)) attr &&
       match prepare cfg with
       | inl (Ok us) =>
           forallb (fun u =>
@@ -259,3 +265,24 @@ Definition c06_ok (i : c06_in) (o : c06_out) : bool :=
   match o with [x] => c06_ok1 i x | _ => false end.
 
 Definition c06_judge := judge c06_model c06_oeqb c06_ok (fun _ => 0%N).
+
+(* ---------- sink C06_hist: a SEQUENCE of calls on one long-lived controller ----------
+   One case = the whole history: per call the number of Send calls made before it on this controller, the call's own
+   configuration (what RMNHome / RMNRemote / the plugin say at THAT call) and its script; the output is the observable
+   of every call.  The model of a history is the single-call model applied to every call on its own
+   (Proofs/RmnHistP.v: [history_memoryless] — the multi-call machine over the concatenated history is the single-call
+   machine mapped over the calls; the only thing threaded through is the position in the request-id stream, and
+   answers under request ids of earlier calls change nothing: [leftover_ignored]).  The executable property is the
+   single-call property of every call, evaluated against the configuration current at that call. *)
+Definition hist_in := list (N * c06_in).
+Definition hist_out := list c06_out.
+Definition hist_model (h : hist_in) : hist_out := map (fun c => c06_model_from (N.to_nat (fst c)) (snd c)) h.
+Fixpoint forall2b {A B} (f : A -> B -> bool) (l : list A) (m : list B) : bool :=
+  match l, m with
+  | [], [] => true
+  | x :: l', y :: m' => f x y && forall2b f l' m'
+  | _, _ => false
+  end.
+Definition hist_oeqb (m o : hist_out) : bool := forall2b c06_oeqb m o.
+Definition hist_ok (h : hist_in) (o : hist_out) : bool := forall2b (fun c x => c06_ok (snd c) x) h o.
+Definition hist_judge := judge hist_model hist_oeqb hist_ok (fun _ => 0%N).
